@@ -82,22 +82,37 @@ def main(tier, replay):
                 cov[k] = int(v)
     vlib.standard_coverage(chk, stats,
         "real stir::OSMAPOSLReconstruction<DiscretisedDensity<3,float>> (public API: set_up / reconstruct one sub-iteration at a time) on generated "
-        "problems (8-12 detectors, 2-3 rings, images 5-7 across, ray-tracing matrix with all symmetry switches, Poisson data, additive on/off, "
-        "normalisation on/off, subset/total sensitivities, none/quadratic/RDP prior x additive/multiplicative MAP, relative-change clamps, "
-        "inter-update/inter-iteration filters, every number of subsets the library accepts, start subset, enforce_initial_positivity on/off) plus a "
-        "synthetic stream through the class's virtual hooks (zeros, tiny values, negatives, values around every clamp). Per sub-iteration: image "
-        "before + the real objective function's subset gradient-plus-sensitivity, subset sensitivity, prior gradient (hex floats, data) -> image "
-        "after; the Lean model recomputes the image after exactly in Rat; comparison per voxel |impl - model| <= 2^-16 |model| + 2^-148 "
-        "(6 float roundings, the one of prior_gradient/num_subsets amplified <= 110x inside the clamp range [s/10,10s]); both branches accepted "
-        "where a comparison with the float threshold of stir::divide is within 2^-20. distinct = distinct op lines. Oracle on the implementation: "
-        "textbook EM formula from the explicit system matrix, non-negativity, count preservation, monotone log-likelihood, MAP denominator bounds, "
-        "stepwise = uninterrupted run (bitwise), restart at every k from the saved Interfile image (bitwise), enforce_initial_positivity both ways "
-        "(known finding restart:enforce-initial-positivity-lifts-exact-zeros: option on + exact zeros in the saved image; there the same restart point "
-        "with the option off must be bitwise equal and the deviating run must be bitwise the run from the lifted image).",
+        "problems (8-16 detectors, 2-4 rings, span 1 and span 3, view mashing 1 and 2, non-TOF and time-of-flight data (15 TOF bins mashed to 3 or 5), "
+        "images 5-7 across, ray-tracing matrix with all symmetry switches, Poisson data, additive on/off, "
+        "normalisation on/off (non-TOF), subset/total sensitivities, none/quadratic/RDP prior x additive/multiplicative MAP, relative-change clamps, "
+        "inter-update/inter-iteration filters, post-filter, every number of subsets the library accepts, start subset, enforce_initial_positivity "
+        "on/off) plus a synthetic stream through the class's virtual hooks (zeros, tiny values, negatives, values around every clamp). Per "
+        "sub-iteration: image before + the real objective function's subset gradient-plus-sensitivity, subset sensitivity, prior gradient (hex "
+        "floats, data) -> image after; the Lean model recomputes the image after exactly in Rat; comparison per voxel |impl - model| <= 2^-16 "
+        "|model| + 2^-148 (6 float roundings, the one of prior_gradient/num_subsets amplified <= 110x inside the clamp range [s/10,10s]); both "
+        "branches accepted where a comparison with the float threshold of stir::divide is within 2^-20. Further operations answered by the model: "
+        "`uimg` the image written by write_update_image (same tolerance), `post` what is saved as iterate k of a run with a post-filter (exact: "
+        "filtered at k = num_subiterations only), `init` get_initial_data_ptr for initial estimate 0 / 1 / file (exact), `bal` acceptance of every "
+        "number of subsets 1..views+1 by set_up (balanced subsets: projector symmetries as requested, views, TOF, view-mashing phi offset), `chk` "
+        "parameter ranges. distinct = distinct op lines. Oracle on the implementation: textbook EM formula from the explicit system matrix (TOF: "
+        "s_S of the non-TOF matrix, STIR's default, or of the TOF matrix), non-negativity, count preservation, monotone log-likelihood, MAP "
+        "denominator bounds, stepwise = uninterrupted run (bitwise; with a post-filter: called once, at the last sub-iteration, on the last "
+        "iterate, all other saved iterates untouched), save intervals, re-used objects, a run with report_objective_function_values_interval > 0 "
+        "and write_update_image = bitwise the run without them (and image_k = image_{k-1} * limited written update, bitwise), restart at every k "
+        "from the saved Interfile image (bitwise, post-filter included), the same restart and runs from initial estimate 0 / 1 driven by "
+        "PARAMETER FILES (OSMAPOSLReconstruction(parfile) + no-argument reconstruct(): initial estimate, start at subiteration number, objective "
+        "function / projector / prior / normalisation parsed from Interfile copies of the data) = bitwise the in-memory path, "
+        "enforce_initial_positivity both ways (known finding restart:enforce-initial-positivity-lifts-exact-zeros: option on + exact zeros in the "
+        "saved image; there the same restart point with the option off must be bitwise equal and the deviating run must be bitwise the run from "
+        "the lifted image). Known finding em-formula:tof-subset-sensitivity-by-symmetries-of-non-tof-projector: TOF data, > 1 subset, subset "
+        "sensitivities, view symmetries requested: the sensitivity subset differs from the data subset; pinned from both sides (the implementation "
+        "must then be exactly data-subset numerator / that other sensitivity).",
         extra=dict(input_distribution=cov))
     chk.assumptions += ["float rounding, overflow/underflow and signed zeros are not modelled (exact Rat + derived tolerance)",
-                        "subset gradient-plus-sensitivity, subset sensitivities, prior gradient and user filters are data for the model (C05/C09)",
-                        "randomised subset order excluded (C06)", "post-filter, write_update_image, parametric images, MPI not covered"]
+                        "subset gradient-plus-sensitivity, subset sensitivities, prior gradient and user filters (inter-update, inter-iteration, post) are data for the model (C05/C09)",
+                        "randomised subset order excluded (C06)",
+                        "user filters are harness-defined DataProcessors set through the setters also on objects made from a parameter file (a registered filter parsed from the file is not exercised); TOF data without normalisation (no setter for use_tofsens); zoom 1; parametric images, MPI, KOSMAPOSL not covered",
+                        "resuming from the post-filtered LAST image of a finished run is not a restart in the sense of the property (k < num_subiterations)"]
     if audit:
         vlib.proof_coverage(chk, audit, "cd lean && lake build StirVerif stirdriver && lake env lean ../build/out/Audit_C07.lean")
     return chk.finish()
